@@ -37,11 +37,12 @@ RTOL = Fraction(1, 10**12)
 
 def law(dm, f_hz, g_hz):
     """K*DM*(f^-2 - g^-2) in seconds, f and g in Hz (z3 terms)"""
-    return RV(K0) * dm * (RV(10**12) / (f_hz * f_hz) - RV(10**12) / (g_hz * g_hz))
+    inv2 = lambda x: z3.RealVal(0) if x is None else RV(10**12) / (x * x)          # (None: infinite frequency)
+    return RV(K0) * dm * (inv2(f_hz) - inv2(g_hz))
 
 
 def law_tol(S, dm, fs, extra=1):
-    t = RV(K0) * zabs(dm) * sum((RV(10**12) / (f * f) for f in fs), z3.RealVal(0))
+    t = RV(K0) * zabs(dm) * sum((RV(10**12) / (f * f) for f in fs if f is not None), z3.RealVal(0))
     return t * RV(RTOL if S.symbolic else Fraction(1, 10**9)) * extra
 
 
@@ -53,6 +54,7 @@ class DelayLaw(Unit):
     functions = ("pulsarbat.transforms.dedispersion:DispersionMeasure.time_delay",
                  "pulsarbat.transforms.dedispersion:DispersionMeasure.sample_delay")
     witnesses = 1
+    variants = (None, "inf-ref")        # concrete replay of each witness with g = infinite frequency (1/g^2 = 0)
 
     DMU = {"pc/cm3": (u.pc / u.cm**3, Fraction(1)), "pc/m3": (u.pc / u.m**3, Fraction(1, 10**6)), "kpc/cm3": (u.kpc / u.cm**3, Fraction(1000))}
 
@@ -83,7 +85,10 @@ class DelayLaw(Unit):
         else:
             DM = pb.DM(dm, self.DMU[self.dmu][0])
             fq = np.array([v["f"], f2]) * UNITS[self.uf] if self.arr else v["f"] * UNITS[self.uf]
-        return {"DM": DM, "dm": dm, "f": fq, "g": S.quantity(v["g"], UNITS[self.ug]), "h": S.quantity(v["h"], UNITS[self.uh]),
+        if S.variant == "inf-ref":
+            v["g"] = None
+        return {"DM": DM, "dm": dm, "f": fq, "g": (np.inf * UNITS[self.ug]) if v["g"] is None else S.quantity(v["g"], UNITS[self.ug]),
+                "h": S.quantity(v["h"], UNITS[self.uh]),
                 "sr": S.quantity(sr, UNITS[self.usr]), "v": v, "f2": f2, "srv": sr}
 
     def call(self, a):
@@ -97,7 +102,7 @@ class DelayLaw(Unit):
         dm = rterm(a["dm"]) * RV(self.DMU[self.dmu][1])           # in pc/cm^3
         f = rterm(a["v"]["f"]) * RV(SCALE[self.uf])
         f2 = rterm(a["f2"]) * RV(SCALE[self.uf])
-        g = rterm(a["v"]["g"]) * RV(SCALE[self.ug])
+        g = None if a["v"]["g"] is None else rterm(a["v"]["g"]) * RV(SCALE[self.ug])
         h = rterm(a["v"]["h"]) * RV(SCALE[self.uh])
         sr = rterm(a["srv"]) * RV(SCALE[self.usr])
         fs = [f, f2] if self.arr else [f]
